@@ -396,6 +396,63 @@ Proof.
   unfold dag_prune_by_log. rewrite Ho'. cbn [obind]. rewrite Eloop. simpl. rewrite Hc, Hm. reflexivity.
 Qed.
 
+(** the final state is the sequential application of the accepted entries
+    alone: a rejected change contributes nothing *)
+Definition accepted_entries g log : list (N * entry P) :=
+  flat_map (fun e : N * list N * flow =>
+              match snd e, lookup (fst (fst e)) (graph g) with
+              | Continue, Some nd => [(fst (fst e), nvalue nd)]
+              | _, _ => []
+              end) log.
+Fixpoint apply_seq (s : S) (l : list (N * entry P)) : S :=
+  match l with
+  | [] => s
+  | ke :: l' => apply_seq (snd (apply s (fst ke) (snd ke) [])) l'
+  end.
+
+Definition sub_values (ga gb : dag (entry P)) : Prop :=
+  forall k na, lookup k (graph ga) = Some na -> exists nb, lookup k (graph gb) = Some nb /\ nvalue nb = nvalue na.
+
+Lemma run_state g0 : forall gc acc log a gfin,
+  prune_run filt gc acc log a gfin -> dag_shape gc -> sub_values gc g0 ->
+  a = apply_seq acc (accepted_entries g0 log).
+Proof.
+  intros gc acc log a gfin Hrun. induction Hrun as [gc acc|gc acc k nd sib g1 log a gfin El Esib Hstep Hrun IH];
+    intros Hs Hsv; [reflexivity|].
+  remember (filt acc k nd (present gc sib)) as r eqn:Er.
+  unfold accepted_entries. cbn [flat_map fst snd]. fold (accepted_entries g0 log).
+  destruct (fst r) eqn:Ef.
+  - subst g1. destruct (Hsv k nd El) as [n0 [El0 Hv0]]. rewrite El0. cbn [app apply_seq fst snd].
+    rewrite (IH Hs Hsv). f_equal. rewrite Er. unfold eval_filter. rewrite Hv0.
+    unfold eval_filter in Er. destruct (e_sigok (nvalue nd)).
+    + simpl. f_equal. apply Hblind.
+    + rewrite Er in Ef. discriminate.
+  - assert (Hacc : snd r = acc) by (rewrite Er; apply filt_break; rewrite <- Er; exact Ef).
+    rewrite Hacc in *. simpl.
+    destruct (remove_exact gc k Hs) as [g1' [E1 [Hs1 [Hrm1 _]]]]. rewrite Hstep in E1. inversion E1; subst g1'.
+    apply IH; [exact Hs1|]. intros k0 n1 H1.
+    assert (Hk : in_graph g1 k0) by (unfold in_graph; congruence).
+    apply (removed_in_graph gc g1 _ k0 Hrm1) in Hk. destruct Hk as [Hk HR].
+    apply in_graph_lookup in Hk. destruct Hk as [nc Hc].
+    destruct (rm_kept _ _ _ Hrm1 k0 nc Hc HR) as [n1' [H1' [Hv _]]]. rewrite H1 in H1'. inversion H1'; subst n1'.
+    destruct (Hsv k0 nc Hc) as [n0 [H0 Hv0]]. exists n0. split; [exact H0 | congruence].
+Qed.
+
+Theorem evaluate_state_is_fold oid g m a h log : dag_wf g ->
+  evaluate oid g = EvOk m a h log ->
+  exists root obj0, lookup oid (graph g) = Some root /\ init oid (nvalue root) = Some obj0 /\
+    a = apply_seq obj0 (accepted_entries g log).
+Proof.
+  intros Hwf Hev.
+  destruct (evaluate_ok_inv oid g m a h log Hev) as [root [obj0 [El [Hsig [Hinit [Hm [Hp Hc]]]]]]].
+  destruct (prune_by_spec g (sset_elems (ndpts root)) obj0 filt chronological Hwf)
+    as [o [a' [h' [log0 [Eo [Ep [Hnd [Hcl [Hin [Hsub [Hrun _]]]]]]]]]]].
+  rewrite Hp in Ep. inversion Ep; subst a' h' log0.
+  exists root, obj0. split; [exact El|]. split; [exact Hinit|].
+  apply (run_state g g obj0 log a h Hrun (wf_shape g Hwf)).
+  intros k na H. exists na. auto.
+Qed.
+
 (** … for ANY well-formed graph that is the loaded graph without the rejected
     changes and their dependents *)
 Corollary prune_equiv_any oid g m a h log g' : dag_wf g ->
